@@ -79,7 +79,7 @@ def wrap_kind(d, rec, why):
             return "nan-inf-accepted"
         return "malformed-accepted"
     if why == "null":
-        return "null-without-replacement"
+        return "null-written-as-value"
     if why in ("replacement", "decode", "name", "not-in-list", "length", "invalid-bcd", "cfg-range"):
         return why
     v = text_value(t)
